@@ -248,9 +248,9 @@ func RunProperty(args []string) int {
 		return 2
 	}
 	defer os.RemoveAll(scratch)
-	qTimeout := 30 * time.Second
+	qTimeout := 60 * time.Second
 	if tier == "thorough" {
-		qTimeout = 180 * time.Second
+		qTimeout = 300 * time.Second
 	}
 	so := &SolveOpts{Dir: scratch, Timeout: qTimeout, FirstTry: 2 * time.Second, Workers: 4, WantModel: true}
 
